@@ -127,8 +127,18 @@ func (e *Engine) verifyFuncGroup(fn *ssa.Function, spec *FuncSpec, prop, group s
 		if is == nil {
 			return fmt.Errorf("%s: refines %s: no such iface contract", x.qname, rname)
 		}
-		if len(spec.Requires) > 0 {
-			return fmt.Errorf("%s: a method that refines an interface contract must not have its own requires clauses", x.qname)
+		// own requires clauses are allowed only as representation invariants: each must be
+		// re-established, i.e. appear among the ensures clauses too
+		for _, rq := range spec.Requires {
+			found := false
+			for _, en := range spec.Ensures {
+				if strings.Contains(strings.ReplaceAll(en.Text, " ", ""), strings.ReplaceAll(rq.Text, " ", "")) {
+					found = true
+				}
+			}
+			if !found {
+				return fmt.Errorf("%s: requires %q of a method that refines an interface contract must be an invariant (repeated in an ensures clause)", x.qname, rq.Text)
+			}
 		}
 		renv := x.refineEnv(st, fn, is, args, nil)
 		for _, cl := range is.Requires {
@@ -301,6 +311,13 @@ func (x *Exec) checkPost(st *State, ret *ssa.Return, rs []Val) {
 		x.oblige(st, fmt.Sprintf("%s/post#%d", x.qname, c.Ord), "post", g, c.Text, fmt.Sprintf("%s:%d", c.File, c.Line), c.Tags)
 		x.curClause = nil
 	}
+	// history constraint of the receiver's type (methods that refine interface contracts keep it)
+	if x.primary && len(x.spec.Refines) > 0 && len(x.top.Params) > 0 {
+		if c, cenv := x.constraintFor(st, x.top.Params[0].Type(), x.entryVars[x.top.Params[0].Name()], x.oldHeap); c != nil {
+			g := x.evalClause(st, cenv, c, x.spec)
+			x.oblige(st, x.qname+"/constraint", "constraint", g, "history constraint: "+c.Text, fmt.Sprintf("%s:%d", c.File, c.Line), nil)
+		}
+	}
 	// behavioural refinement of interface contracts
 	if x.primary {
 		for _, rname := range x.spec.Refines {
@@ -393,6 +410,11 @@ func (x *Exec) evalAssignTarget(env *Env, c *Clause, spec *FuncSpec) (locs []ass
 				elem := dt.Underlying().(*types.Pointer).Elem()
 				sty := elem.Underlying().(*types.Struct)
 				var locs []assignLoc
+				x.modelHandles = append(x.modelHandles, modelHandle{dt, ref})
+				// precise footprint: what the methods of this type that refine interface contracts may assign
+				if rl, ok := x.refinerAssigns(env, dt, ref); ok {
+					return rl
+				}
 				for _, fname := range modelFields(m.E) {
 					locs = append(locs, x.fieldLocs(env, elem, sty, ref, fname, c.Text+" (model field ."+fname+")")...)
 				}
@@ -1286,4 +1308,70 @@ func (x *Exec) refineEnv(st *State, fn *ssa.Function, is *FuncSpec, args []Val, 
 		ov[k] = v
 	}
 	return &Env{x: x, st: st, heap: st.heap, old: old, vars: vars, ovars: ov, pkg: x.specPkg(is)}
+}
+
+// refinerAssigns: the union of the assigns clauses of the methods of the handle's dynamic type
+// that refine interface contracts, evaluated with the handle as receiver. A client that only
+// reaches the object through the interface can change nothing else.
+func (x *Exec) refinerAssigns(env *Env, dt types.Type, ref *Term) ([]assignLoc, bool) {
+	e := x.e
+	named, ok := types.Unalias(dt.Underlying().(*types.Pointer).Elem()).(*types.Named)
+	if !ok || named.Obj().Pkg() == nil {
+		return nil, false
+	}
+	pp := named.Obj().Pkg().Path()
+	ps := e.specs[pp]
+	if ps == nil {
+		return nil, false
+	}
+	var locs []assignLoc
+	found := false
+	for _, key := range ps.sortedFuncKeys() {
+		fs := ps.Funcs[key]
+		if len(fs.Refines) == 0 || !strings.HasPrefix(key, named.Obj().Name()+".") {
+			continue
+		}
+		fn := e.findFunc(pp, key)
+		if fn == nil || len(fn.Params) == 0 {
+			continue
+		}
+		found = true
+		sub := *env
+		sub.vars = map[string]TV{fn.Params[0].Name(): {V: VRef{ref}, T: dt}}
+		sub.ovars = sub.vars
+		sub.fr = nil
+		if tp := e.tpkgs[pp]; tp != nil {
+			sub.pkg = tp.Types
+		}
+		for _, a := range fs.Assigns {
+			locs = append(locs, x.evalAssignTarget(&sub, a, fs)...)
+		}
+	}
+	return locs, found
+}
+
+// constraintFor: the history constraint declared for the (pointer-to-named-struct) type of a handle
+func (x *Exec) constraintFor(st *State, t types.Type, self Val, old map[string]*Term) (*Clause, *Env) {
+	pt, ok := t.Underlying().(*types.Pointer)
+	if !ok {
+		return nil, nil
+	}
+	named, ok := types.Unalias(pt.Elem()).(*types.Named)
+	if !ok || named.Obj().Pkg() == nil {
+		return nil, nil
+	}
+	ps := x.e.specs[named.Obj().Pkg().Path()]
+	if ps == nil {
+		return nil, nil
+	}
+	c := ps.Constraints[named.Obj().Name()]
+	if c == nil {
+		return nil, nil
+	}
+	vars := map[string]TV{"self": {V: self, T: t}}
+	var pkg *types.Package
+	if tp := x.e.tpkgs[named.Obj().Pkg().Path()]; tp != nil {
+		pkg = tp.Types
+	}
+	return c, &Env{x: x, st: st, heap: st.heap, old: old, vars: vars, ovars: vars, pkg: pkg}
 }
